@@ -23,7 +23,8 @@ THEOREMS = ['C04_init_world_inv', 'C04_step_local', 'C04_step_noninterference', 
             'C04_world_disjoint_queries_alone_K', 'C04_world_disjoint_queries_alone', 'C04_unify_frame']
 RULE = ('2-3 engines, histories of 6-24 operations each over {atom, assert_fact/assertz/asserta (3 API variants), retract/'
         'retractall (4 API variants), register_function (fixed/variadic), load_script_from_string of compiled Prolog '
-        '(overwrite and chained; the same text in several engines, and different texts defining the same names), clear, '
+        '(overwrite and chained; the same text in several engines, and different texts defining the same names; in half of the '
+        'cases rule bodies call asserta/assertz/retract/retractall and queries are started on these builtins themselves), clear, '
         'start/next/close/drop/drain of query generators in 3 slots, peek at variables between steps}, merged by a random '
         'schedule with bursts; every '
         'history ends with read-back queries of all predicates. Non-trivial: two engines hold different contents under '
@@ -33,7 +34,8 @@ TRUSTED_BASE = [
     'Coq 8.16.1 kernel (coqc); vm_compute for the in-Coq evaluation of the model on every case',
     'no axioms: all C04 theorems are closed under the global context',
     'hand-written model Engine/World.v of YP.__init__/clear/atom/assert_fact/asserta/assertz/retract/retractall/'
-    'register_function/load_script_from_string/query/match_dynamic/Answer.match and of suspended query generators; '
+    'register_function/load_script_from_string/query/match_dynamic/Answer.match, of suspended query generators and of the '
+    'builtins asserta/assertz/retract/retractall called from clause bodies; '
     'tied to /repo by this differential run (not by translation)',
     'compiled clauses are modelled as (head arguments, list of goals): the translation of Prolog text to Python text is '
     'the business of C01/C11; here the compiler is only used to produce the scripts that are loaded',
@@ -44,7 +46,9 @@ TRUSTED_BASE = [
     'harness: generators, drivers, canonicalisation (harness/props/c04.py), parser of printed observations',
 ]
 ASSUMPTIONS = ['engines do not share Variable objects; simultaneously suspended queries of one engine use disjoint variables',
-               'queries are read-only (clause bodies call facts, rules and =); database-writing goals inside bodies belong to C14',
+               'within one engine, a query is only promised to be independent of the writes other suspended queries make to keys '
+               'of the fact store it does not touch (theorem C04_same_engine_slots_K; refuted otherwise); the same-engine oracle is '
+               'applied under the static counterpart of that condition',
                'cases in which a match needs a cyclic term (model error code 2) are unspecified and skipped',
                'evaluate_bounded (interpreter-wide recursion limit) is outside the statement']
 CASE_TIMEOUT = 120
